@@ -170,7 +170,7 @@ def run(ctx):
     run_slicing(ctx)
     # operations do not depend on how an operand is held (pending transposition, meta / hard fused legs)
     from .. import views
-    views.run(ctx, 400 if ctx.quick else 6000, 25 if ctx.quick else 300)
+    views.run(ctx, 400 if ctx.quick else 6000, 25 if ctx.quick else 300, which=("R1", "R1", "R1", "R2", "R3", "R4", "R7"))
 
 
 def run_slicing(ctx):
